@@ -23,6 +23,13 @@ class TermError(Exception):
     pass
 
 
+class NeedChoice(Exception):
+    """a condition that is no header fact of the configuration was met: the caller explores both outcomes"""
+    def __init__(self, text):
+        Exception.__init__(self, text)
+        self.text = text
+
+
 # ---- polynomials ----------------------------------------------------------------------------------------------------
 class Poly:
     def __init__(self, m=None):
@@ -171,6 +178,9 @@ class Builder:
         self.op_sources = op_sources        # callable(node) -> operator spelling | None
         self.container_sources = container_sources  # callable(base node) -> tag | None: `base[i]` denotes the symbol TAG[i]
         self.cond_fallback = cond_fallback  # callable(node) -> bool | None for conditions that are not header facts
+        self.choices = None                 # list of outcomes for conditions outside the configuration (see explore())
+        self._nchoice = 0
+        self.taken = []
         self.captures = []                  # (kind, target text, term): values stored into statements / declarations
         if optable is None:
             from .paren import operator_table
@@ -210,6 +220,13 @@ class Builder:
         while key.startswith("(") and key.endswith(")") and key not in self.config:
             key = key[1:-1]
         if key not in self.config:
+            if self.choices is not None:
+                if self._nchoice < len(self.choices):
+                    v = self.choices[self._nchoice]
+                    self._nchoice += 1
+                    self.taken.append((key, v))
+                    return v
+                raise NeedChoice(key)
             raise TermError("condition `%s` is not a header fact of the configuration" % key)
         return self.config[key]
 
@@ -481,3 +498,23 @@ def member_chain(fn, e, depth=0):
         if len(ds) == 1 and ds[0]["k"] == "VarDecl" and kids(ds[0]):
             return member_chain(fn, kids(ds[0])[0], depth + 1)
     return None, []
+
+
+def explore(make_builder, run, max_depth=5):
+    """all outcomes of a builder when conditions outside the configuration may go either way.
+    make_builder() -> fresh Builder; run(builder) -> value. Returns [(choices taken [(text, bool)], value)]."""
+    out = []
+    work = [[]]
+    while work:
+        ch = work.pop()
+        b = make_builder()
+        b.choices = list(ch)
+        try:
+            out.append((list(b.taken) if False else None, run(b), b))
+            out[-1] = (list(b.taken), out[-1][1])
+        except NeedChoice as e:
+            if len(ch) >= max_depth:
+                raise TermError("more than %d undetermined conditions (last: %s)" % (max_depth, e.text))
+            work.append(ch + [True])
+            work.append(ch + [False])
+    return out
